@@ -289,3 +289,69 @@ func VerifC13Wire() {
 	}
 	vsymAssert(strings.Contains(resp, "RFC822.SIZE "+num(len(full))+" ") || strings.Contains(resp, "RFC822.SIZE "+num(len(full))+")"), "RFC822.SIZE is the length of BODY[]")
 }
+
+// VerifC20Wire: APPEND on the wire when the remote side refuses the message: the command is answered NO, and the exact
+// bytes are kept in the recovery mailbox - it shows up in LIST, can be selected, holds one message, and its BODY[] (read
+// as a client reads a literal) ends with exactly the appended bytes.  A second, accepted APPEND is answered OK and
+// found in INBOX.
+func VerifC20Wire() {
+	g := vsymParam("g")
+	head := "To: a@b.c\r\nFrom: d@e.f\r\nDate: Mon, 7 Feb 1994 21:52:25 -0800\r\nSubject: s\r\n\r\n"
+	lit := append([]byte(head), vsymBytes("body", g)...)
+	be := backend.VerifNewBackendUsers()
+	conn := &verifRawConn{verifPipeConn: verifPipeConn{in: make(chan []byte, 4)}}
+	s := New(conn, be, 1, version.Info{}, nil, make(chan events.Event, 256), 0, nil)
+	go func() { _ = s.serve(context.Background()) }()
+	vsymAssert(c1Tagged(conn.send("l LOGIN alice pw1"), "l", "OK"), "LOGIN is answered OK")
+	num := func(n int) string {
+		var d []byte
+		for n > 0 {
+			d = append([]byte{byte('0' + n%10)}, d...)
+			n /= 10
+		}
+		return string(d)
+	}
+	appendLit := func(tag string) []string {
+		cont := conn.send(tag + " APPEND INBOX {" + num(len(lit)) + "}")
+		vsymAssert(len(cont) == 1 && strings.HasPrefix(cont[0], "+"), "a synchronising literal is answered by a continuation request")
+		start := len(conn.lines)
+		conn.in <- append(append([]byte(nil), lit...), '\r', '\n')
+		vsymSched()
+		return conn.lines[start:len(conn.lines):len(conn.lines)]
+	}
+	backend.VerifCreateFails = 1
+	refused := appendLit("a")
+	backend.VerifCreateFails = 0
+	vsymAssert(c1Tagged(refused, "a", "NO"), "an APPEND the remote side refuses is answered NO")
+	listed := false
+	for _, l := range conn.send("i LIST \"\" \"*\"") {
+		if strings.HasPrefix(l, "* LIST") && strings.Contains(l, "Recovered Messages") {
+			listed = true
+		}
+	}
+	vsymAssert(listed, "the recovery mailbox is listed once it holds a message")
+	sel := conn.send("s SELECT \"Recovered Messages\"")
+	vsymAssert(c1Tagged(sel, "s", "OK"), "the recovery mailbox can be selected")
+	one := false
+	for _, l := range sel {
+		if l == "* 1 EXISTS" {
+			one = true
+		}
+	}
+	vsymAssert(one, "the recovery mailbox holds exactly the refused message")
+	r0 := len(conn.raw)
+	vsymAssert(c1Tagged(conn.send("f FETCH 1 (BODY.PEEK[])"), "f", "OK"), "FETCH is answered OK")
+	full, ok := c13Literal(strings.Join(conn.raw[r0:], ""), "BODY[]")
+	vsymAssert(ok && strings.HasSuffix(full, string(lit)), "the recovered message is byte for byte the message handed to APPEND")
+	vsymCover("recovered-fetched")
+	// the same bytes again, accepted this time
+	vsymAssert(c1Tagged(appendLit("b"), "b", "OK"), "an accepted APPEND is answered OK")
+	got := conn.send("t SELECT INBOX")
+	two := false
+	for _, l := range got {
+		if l == "* 2 EXISTS" {
+			two = true
+		}
+	}
+	vsymAssert(two, "the accepted message is in the mailbox it was appended to")
+}
